@@ -91,14 +91,28 @@ def build(case):
         iv = st ** -2 * va["st_var"] + ast ** -2 * va["ast_var"]
         Wp = 1 / (iv + s)
         wa = "true" if "fix_alpha" in kw else "false"
-        return (f"se_fix_check {common} {dmat(st)} {dmat(ast)} {dmat(va['st_var'])} {dmat(va['ast_var'])} {dmat(Wp)} {dmat(np.log(st / ast))} {wa} {tail}")
+        from vlib.props.c01 import ms_lit
+        if f.matching:
+            from dtscalibration.calibrate_utils import match_sections
+            mi = np.asarray(match_sections(ds, f.matching))
+            xs = ds.x.values
+            sm = np.zeros((len(mi), nt))
+            if "fix_dalpha" in kw:   # a matching row is the difference of two locations: gamma drops out, dalpha enters with x1 - x0
+                sm += ((xs[mi[:, 1]] - xs[mi[:, 0]]) ** 2)[:, None] * kw["fix_dalpha"][1]
+            Wpm = 1 / (iv[mi[:, 0]] + iv[mi[:, 1]] + sm)
+            mlit = f"{ms_lit(f)} {dmat(Wpm)}"
+        else:
+            mlit = "[] []"
+        tail_se = f"{fx} {mlit} {dlist(rec['y'])} {dlist(rec['w'])} {dlist(out.p_val.values)} {dmat(out.p_cov.values)} ({E_CERT}) ({E_TOL})"
+        return (f"se_fix_check {common} {dmat(st)} {dmat(ast)} {dmat(va['st_var'])} {dmat(va['ast_var'])} {dmat(Wp)} {dmat(np.log(st / ast))} {wa} {tail_se}")
     rst, rast = ds.rst.values, ds.rast.values
     ivF = st ** -2 * va["st_var"] + ast ** -2 * va["ast_var"]
     ivB = rst ** -2 * va["rst_var"] + rast ** -2 * va["rast_var"]
     sde = s.copy()
     if "fix_alpha" in kw:  # alpha at the first reference location is 0 by definition and carries no variance
         ix0 = int(np.min(ds.dts.ufunc_per_section(sections=f.sections, x_indices=True, calc_per="all")))
-        sde[ix0] -= np.asarray(kw["fix_alpha"][1])[ix0]
+        # (rebuilt without that term instead of subtracting it: the subtraction loses 1e-12 relative and shows at the 2^-46 comparison)
+        sde[ix0] = (g2[ix0] * kw["fix_gamma"][1]) if "fix_gamma" in kw else 0.0
     return (f"de_fix_check {common} {dmat(st)} {dmat(ast)} {dmat(va['st_var'])} {dmat(va['ast_var'])} {dmat(rst)} {dmat(rast)} {dmat(va['rst_var'])} {dmat(va['rast_var'])} "
             f"{dmat(1 / (ivF + sde))} {dmat(1 / (ivB + sde))} {dmat(np.log(st / ast))} {dmat(np.log(rst / rast))} {tail}")
 
@@ -115,6 +129,9 @@ def gen_params(ctx):
         force = {"nmatch": 0, "noise": float(rng.choice([0.002, 0.01, 0.05])), "nx": int(rng.integers(9, 15)), "nta": int(rng.choice([0, 0, 1]))}
         if force["nta"]:
             force["nx"] = int(rng.integers(13, 17))
+        if not double and "alpha" not in fix.split("+") and k % 2 == 1:   # matching sections (the API refuses them together with fix_alpha)
+            force["nmatch"] = int(rng.choice([1, 2]))
+            force["nx"] = int(rng.integers(20, 28))
         if k % 5 == 0 and not double:
             force["nt"] = 1
         p = calib.random_params(rng, double, quick=True, **force)
@@ -122,6 +139,7 @@ def gen_params(ctx):
         # supplied variance relative to the measurement variance of an observation, translated through the coefficient
         scale = {"gamma": 1e-5 / 1e-5, "dalpha": 1e-5 / max(p["span"], 1.0) ** 2 * 4, "alpha": 1e-5, "alpha+gamma": 1e-5, "gamma+dalpha": 1e-5 / max(p["span"], 1.0) ** 2 * 4}[fix]
         p["fix_var"] = float(r * scale)
+        p["fix_var_vary"] = bool(k % 5 != 0)   # location-dependent variance of a fixed alpha is the rule, a uniform one the exception
         p["ratio"] = r
         out.append(p)
     return out
@@ -161,7 +179,7 @@ def run(ctx):
                          "fix_alpha+fix_gamma} x supplied variance in {0, tiny, comparable to, 100x} the measurement variance (translated through the coefficient). The arguments of "
                          "wls_sparse are captured at run time and compared with the reduced rows of the model; the result is judged by exact residual tests on the reduced problem")
     ctx.trusted += ["harness vlib/props/c07.py (run-time wrapper around calibrate_utils.wls_sparse inside the harness process)", "LSQR / lstsq judged, not modelled"]
-    ctx.assumptions += ["no matching sections in the C07 conformance (the reduction theorem covers them; the certified-weight harness does not)", "fixed values supplied at the generator's truth"]
+    ctx.assumptions += ["matching sections in the single-ended C07 conformance only (the reduction theorem covers both; the double-ended certified-weight harness does not)", "fixed values supplied at the generator's truth"]
     run_params(ctx, gen_params(ctx), "fix")
 
 
